@@ -4,10 +4,10 @@ package main
 // concretised signatures (this chain / another chain / another registered domain / flipped bits).
 
 import (
-	"github.com/oasisprotocol/oasis-core/go/common/version"
 	"crypto/ed25519"
 	"crypto/sha512"
 	"fmt"
+	"github.com/oasisprotocol/oasis-core/go/common/version"
 	"math/rand"
 	"strings"
 	"time"
